@@ -420,8 +420,8 @@ class Rerender(Part):
 
         root = st.one_of(st.lists(val(1), max_size=4).map(lambda k: ["list", k]), st.lists(st.tuples(lf, val(1)).map(list), max_size=3).map(lambda p: ["dict", p]))
         edit = st.tuples(st.sampled_from(["root", "nested"]), val(1)).map(list)
-        return st.builds(lambda v, w1, w2, edits, measure, kw, ab, nr: {"v": v, "w1": w1, "w2": w2, "edits": edits, "measure": measure, "kw": kw, "abort": ab, "node_renders": nr}, root, st.integers(40, 120), st.integers(40, 120),
-                         st.lists(edit, min_size=1, max_size=3), st.booleans(), st.sampled_from([{}, {}, {"expand_all": True}, {"indent_size": 2}, {"max_length": None, "margin": 3}]),
+        return st.builds(lambda v, w1, w2, edits, measure, kw, ab, nr: {"v": v, "w1": w1, "w2": w2, "edits": edits, "measure": measure, "kw": kw, "abort": ab, "node_renders": nr, "justified": bool(nr) or ab}, root, st.integers(40, 120), st.integers(40, 120),
+                         st.lists(edit, min_size=1, max_size=3), st.booleans(), st.sampled_from([{}, {}, {"expand_all": True}, {"indent_size": 2}, {"indent_size": 8}, {"indent_size": 7, "expand_all": True}, {"max_length": None, "margin": 3}]),
                          st.sampled_from([False, False, False, True]), st.one_of(st.just([]), st.lists(st.tuples(st.integers(8, 60), st.integers(1, 8)).map(list), min_size=2, max_size=4)))
 
     def check(self, spec, ctx):
@@ -478,7 +478,12 @@ class Rerender(Part):
             con = Console(file=io.StringIO(), width=w, color_system=None, force_terminal=False, _environ={})
             if spec["measure"]:
                 sut(Measurement.get, con, pretty, w)
-            sut(con.print, pretty)
+            # sometimes through something that measures first and renders at the measured width (justify= wraps the renderable in an Align)
+            if spec.get("justified") and when == "first":
+                sut(con.print, pretty, justify="left")
+                ctx.cls("printed-through-align")
+            else:
+                sut(con.print, pretty)
             out = con.file.getvalue()
             try:
                 back = eval(out, dict(EVAL_ENV))
